@@ -39,6 +39,25 @@ def align_between(items, it):
     return False
 
 
+BRANCH_HEADS = {'beq', 'bne', 'blt', 'bge', 'bltu', 'bgeu', 'beqz', 'bnez', 'blez', 'bgez', 'bltz', 'bgtz', 'bgt', 'ble', 'bgtu', 'bleu'}
+
+
+def const_target_at_reach(items, u, it):
+    """D19b is about an ABSOLUTE target whose distance, already at the edge of the 32-bit form's reach without -c (+-4 KiB for branches, +-1 MiB for jal / near call / tail),
+    grows when the code in front shrinks.  Only such cases carry the tag: a constant target that a compressed form was wrongly chosen for (distance around 256 / 2048) does not."""
+    names = set(L.refs(it))
+    vals = [i['value'] for i in items if i['k'] == 'const' and i.get('name') in names and 'value' in i]
+    if not vals:
+        return False
+    try:
+        idx = next(n for n, x in enumerate(items) if x is it)
+        pos = u.walk.places[idx][0]
+    except Exception:
+        return False
+    reach = 4096 if progs.head(it) in BRANCH_HEADS else (1 << 20)
+    return any(abs(v - pos) >= reach - 64 for v in vals)
+
+
 def judge(ctx, items, res, driver, case):
     u, c = res[False], res[True]
     if u.status != 'ok':
@@ -49,9 +68,8 @@ def judge(ctx, items, res, driver, case):
         return
     it = culprit(items, c)
     cls = 'refused' if c.status == 'refused' else 'raw:' + c.etype
-    consts = {i['name'] for i in items if i['k'] == 'const' and 'name' in i}
-    if it is not None and consts & set(L.refs(it)):
-        cls += ':const-target'          # the operand names a CONSTANT (an absolute address / value), not a label
+    if it is not None and const_target_at_reach(items, u, it):
+        cls += ':const-target'          # the operand names a CONSTANT (an absolute address) that sits at the very edge of what the 32-bit instruction reaches
     if it is not None and align_between(items, it):
         cls += ':align-between'         # an align lies between the culprit and a label it refers to (its padding can grow when code in front shrinks)
     key = '%s:%s:%s:%s' % (PROP, progs.head(it) if it else 'program', progs.spec_class(it) if it else '-', cls)
@@ -200,6 +218,7 @@ def s2_tasks(tier):
     ts += [dict(src='symbolic', part=i, parts=16) for i in range(16)]
     ts += [dict(src='labeldiff', k=k) for k in range(0, 9)]
     ts += [dict(src='shadow')]
+    ts += [dict(src='nearlabel', part=i, parts=64) for i in range(64)]
     return ts
 
 
